@@ -243,12 +243,25 @@ func checkC06(w *Worker) {
 	if fromDayNumber(dayNumber("2021/03/01")) != "2021/03/01" || fromDayNumber(dayNumber("2020/12/31")-30) != "2020/12/01" {
 		hfail("fromDayNumber is wrong")
 	}
+	dstCmds := [][]string{{"print"}, {"reg"}, {"report", "quantity"}}
+	if w.Tier == "thorough" {
+		// every day of 2021 as --today, every period-aware command
+		dstTodays = nil
+		for n := dayNumber("2021/01/01"); n <= dayNumber("2021/12/31"); n++ {
+			dstTodays = append(dstTodays, fromDayNumber(n))
+		}
+		dstCmds = nil
+		for _, c := range c06Cmds {
+			dstCmds = append(dstCmds, c.Args)
+		}
+		dstZones = append(dstZones, "America/Sao_Paulo", "Asia/Tehran", "Africa/Casablanca", "Europe/Dublin", "Antarctica/Troll", "Pacific/Chatham")
+	}
 	w.Explore("daylight-saving-zones", ExploreOpts{ShardDepth: 3}, func(x *Exec) {
 		zone := dstZones[x.Choose(len(dstZones), "env:tz")]
 		today := dstTodays[x.Choose(len(dstTodays), "input:today")]
 		kw := x.Choose(len(c06KeywordList), "input:keyword")
 		side := x.Choose(3, "input:bound") // begin, end, both
-		cmd := [][]string{{"print"}, {"reg"}, {"report", "quantity"}}[x.Choose(3, "input:command")]
+		cmd := dstCmds[x.Choose(len(dstCmds), "input:command")]
 		if !zoneAvailable(zone) {
 			x.Case("zone-not-available|"+zone, false)
 			x.Note("tz_database_zone_missing", 1)
